@@ -1163,6 +1163,7 @@ static int parse_container(struct scanner_s *scanner, cif_container_tp *containe
                                     scanner->column - TVALUE_LENGTH(scanner), TVALUE_START(scanner),
                                     TVALUE_LENGTH(scanner), scanner->user_data);
                             if (result != CIF_OK) {
+                                free(name);
                                 goto container_end;
                             }
                             /* recover by rejecting the item (but still parsing the associated value) */
